@@ -32,8 +32,8 @@ pub fn run(ctx: &Ctx) {
         Ok(d) if std::path::Path::new(&format!("{d}/grex.so")).exists() => d,
         _ => return run.machinery_error("VERIF_PYMOD_DIR not set or grex.so missing (the check driver builds the extension from /repo)".into()),
     };
-    *run.rule.lock().unwrap() = "real extension module built from /repo (python feature) imported by CPython; subsets (size<=2) of the hex-width alphabet (U+007F..U+10FFFF: 2,3,4,5,6 hex digits, plus U+1F4A9, 'a', space, NBSP) ^<=2 x {{}, e, e+u} x deviation-bounded lattice of the other flags; oracle: extension result == independent token-level rewrite of the in-process Rust library result, re.compile succeeds, and (no class flag, no u) re.fullmatch on every test case; ValueError cases for empty lists and non-positive thresholds with the library's messages; non-trivial = case contains a non-ASCII scalar; distinct by hash".into();
-    let alpha: Vec<&str> = A_ESC.iter().copied().chain(["a", " ", "\u{a0}"]).collect();
+    *run.rule.lock().unwrap() = "real extension module built from /repo (python feature) imported by CPython; subsets (size<=2) of the hex-width alphabet (U+007F..U+10FFFF: 2,3,4,5,6 hex digits, plus U+1F4A9, 'a', space, NBSP, backslash) ^<=2 x {{}, e, e+u} x deviation-bounded lattice of the other flags; oracle: extension result == independent token-level rewrite of the in-process Rust library result, re.compile succeeds, and (no class flag, no u) re.fullmatch on every test case; ValueError cases for empty lists and non-positive thresholds with the library's messages; non-trivial = case contains a non-ASCII scalar; distinct by hash".into();
+    let alpha: Vec<&str> = A_ESC.iter().copied().chain(["a", " ", "\u{a0}", "\\"]).collect();
     let u = Universe::new("U_adv(A_esc+a+sp+nbsp)", &alpha, 2, 2, false);
     let free = D | ND | S | NS | W | NW | R | I | G | X | NA | NE;
     let others = lattice_le(0, free, if thorough { 2 } else { 1 });
